@@ -33,6 +33,18 @@ def explore_avps(chk, g, n, tag):
     for _ in range(n):
         depth = g.rng.choice([0, 1, 2, 3, 4])
         o, toks = g.tree(depth)
+        if toks[0] == "X" and not isinstance(o, bromgen.Failed) and g.rng.random() < 0.3:
+            # a generic AVP that came out of the decoder and whose data is then reassigned (another length residue)
+            from bromelia.base import DiameterAVP
+            try:
+                o2 = DiameterAVP.load(o.dump())[0]
+                if type(o2) is DiameterAVP:
+                    nd = g.rbytes(g.rng.choice([0, 1, 2, 3, 4, 5, 6, 7, 9]))
+                    o2.data = nd
+                    o, toks = o2, toks[:4] + [nd.hex() or "-"]
+            except BaseException as e:
+                if isinstance(e, (KeyboardInterrupt, SystemExit)):
+                    raise
         objs.append(o)
         lines.append("enc " + " ".join(toks))
     if g.mutate_grouped:
@@ -136,9 +148,19 @@ def build_message(g, how, hf, kids):
     elif how == 2:
         m = DiameterMessage(hdr)
         m.extend(list(kids))
-    else:
+    elif how == 3:
         m = DiameterMessage(hdr)
         m.avps = list(kids)
+    else:
+        # a message that came out of the decoder with no AVPs (a bare header), then filled through the public API
+        m = DiameterMessage(hdr)
+        try:
+            m = DiameterMessage.load(m.dump())[0]
+        except BaseException as e:
+            if isinstance(e, (KeyboardInterrupt, SystemExit)):
+                raise
+        for k in kids:
+            m.append(k)
     return m
 
 
@@ -160,7 +182,7 @@ def explore_msgs(chk, g, n, tag):
             kids.append(o)
             toks.append(t)
             ktoks = toks
-        how = i % 4
+        how = i % 5
         bad = [k for k in kids if isinstance(k, bromgen.Failed)]
         m = bad[0].err if bad else guarded(lambda: build_message(g, how, hf, kids))
         # a fifth way: an AVP of the built message is replaced by item assignment (sizes of old and new differ freely)
